@@ -1141,3 +1141,91 @@ Lemma choose_filters_bounded bids init_ok probe_ok st d :
 Proof.
   intros H. apply choose_loop_bound in H. destruct H as [[_ H1] H2]. split; [lia|]. intros E; specialize (H2 E); lia.
 Qed.
+
+(* ---------------- truncated input (C08) ---------------- *)
+(* what a parser sees: the first m bytes of each window (or the count reported with NULL), and the result of
+   each consume *)
+Inductive pevent : Type :=
+| EvAhead (m : N) (o : bytes + Z)
+| EvConsume (n : Z) (r : Z).
+
+Fixpoint ptrace {R} (p : parser R) (s : filt) : list pevent :=
+  match p with
+  | PDone _ => []
+  | PAhead m k => let '(r, s') := ahead s m in EvAhead m (observe m r) :: ptrace (k (observe m r)) s'
+  | PConsume n k => let '(r, s') := consume s n in EvConsume n r :: ptrace (k r) s'
+  end.
+
+(* the event reports that the input ended early: NULL with fewer bytes than asked for, or a refused consume *)
+Definition reports_short (e : pevent) : Prop :=
+  match e with
+  | EvAhead m (inr a) => (a < Z.of_N m)%Z
+  | EvAhead _ (inl _) => False
+  | EvConsume n r => r = ARCHIVE_FATAL /\ (0 <= n)%Z
+  end.
+
+(* t1 (seen on the cut input) equals t2 (seen on the whole input) event by event until t1 reports the end *)
+Inductive same_until_short : list pevent -> list pevent -> Prop :=
+| sus_nil : same_until_short [] []
+| sus_same e t1 t2 : same_until_short t1 t2 -> same_until_short (e :: t1) (e :: t2)
+| sus_short e t1 t2 : reports_short e -> same_until_short (e :: t1) t2.
+
+Lemma prefix_drop {A} (a l : list A) n : prefix a l -> n <= len a -> prefix (drop n a) (drop n l).
+Proof. intros [t ->] H. exists t. apply drop_app_l. exact H. Qed.
+
+(* Whatever is delivered from an input that ends early is what the complete input delivers at that point: the
+   two runs of any parser agree event by event - same windows, same consume results - until the run on the short
+   input is TOLD that the input ended (NULL with the count of bytes left, or ARCHIVE_FATAL from consume).
+   No block layout, skip behaviour or position of the cut makes the core hand out bytes the complete input
+   does not have there, or report success for bytes that are missing. *)
+Theorem truncation_prefix {R} (p : parser R) : wf_parser p -> forall s1 s2,
+  good s1 -> good s2 -> prefix (rest s1) (rest s2) ->
+  same_until_short (ptrace p s1) (ptrace p s2).
+Proof.
+  induction 1 as [r|m k Hpos Hm Hk IH|n k Hk IH]; intros s1 s2 (I1 & F1 & P1) (I2 & F2 & P2) HP; cbn [ptrace].
+  - constructor.
+  - destruct (ahead s1 m) as [r1 t1] eqn:E1. destruct (ahead s2 m) as [r2 t2] eqn:E2.
+    destruct (ahead_spec _ _ _ _ I1 F1 Hm E1) as ((J1 & R1 & _ & G1 & C1 & _) & O1).
+    destruct (ahead_spec _ _ _ _ I2 F2 Hm E2) as ((J2 & R2 & _ & G2 & C2 & _) & O2).
+    destruct r1 as [w1|a1]; cbn [res_ok observe] in *.
+    + destruct O1 as (Q1 & L1 & _).
+      assert (Lr : m <= len (rest s1)) by (apply prefix_len in Q1; lia).
+      assert (Lr2 : len (rest s1) <= len (rest s2)) by (apply prefix_len; exact HP).
+      destruct r2 as [w2|a2]; cbn [res_ok observe] in *.
+      * destruct O2 as (Q2 & L2 & _).
+        assert (Hobs : take m w1 = take m w2).
+        { rewrite (prefix_take _ _ _ Q1 L1), (prefix_take _ _ _ Q2 L2). apply (prefix_take _ _ _ HP Lr). }
+        rewrite Hobs. apply sus_same. apply IH.
+        -- split; [auto|split; [auto|eapply plain_same; eauto]].
+        -- split; [auto|split; [auto|eapply plain_same; eauto]].
+        -- rewrite R1, R2. exact HP.
+      * destruct O2 as (_ & L2). lia.
+    + destruct O1 as [-> L1]. apply sus_short. cbn [reports_short]. lia.
+  - destruct (consume s1 n) as [r1 t1] eqn:E1. destruct (consume s2 n) as [r2 t2] eqn:E2.
+    destruct (consume_spec _ _ _ _ I1 F1 P1 E1) as (J1 & G1 & C1 & D1).
+    destruct (consume_spec _ _ _ _ I2 F2 P2 E2) as (J2 & G2 & C2 & D2).
+    assert (Lr2 : len (rest s1) <= len (rest s2)) by (apply prefix_len; exact HP).
+    destruct D1 as [(A1 & B1 & X1)|[(A1 & B1 & X1 & _)|(A1 & B1 & X1)]].
+    + (* negative request: refused on both sides, nothing moves *)
+      destruct D2 as [(A2 & B2 & X2)|[(A2 & B2 & X2 & _)|(A2 & B2 & X2)]]; try lia.
+      subst. apply sus_same. apply IH; [split; [auto|split; auto] | split; [auto|split; auto] | exact HP].
+    + destruct D2 as [(A2 & B2 & X2)|[(A2 & B2 & X2 & _)|(A2 & B2 & X2)]]; try lia.
+      subst r1 r2. apply sus_same. apply IH.
+      * split; [auto|split; [auto|eapply plain_same; eauto]].
+      * split; [auto|split; [auto|eapply plain_same; eauto]].
+      * rewrite X1, X2. apply prefix_drop; [exact HP | lia].
+    + subst r1. apply sus_short. cbn [reports_short]. split; [reflexivity | lia].
+Qed.
+
+(* headline for C08: an input cut at any offset, behind any two fault-free read-callback partitions *)
+Theorem truncated_input_prefix {R} (p : parser R) data cut plan1 plan2 :
+  wf_parser p -> Forall good_ract plan1 -> Forall good_ract plan2 ->
+  same_until_short (ptrace p (init_filt (mk_plain_client (take cut data) plan1)))
+                   (ptrace p (init_filt (mk_plain_client data plan2))).
+Proof.
+  intros Hp G1 G2. apply truncation_prefix; [exact Hp | | |].
+  - split; [apply init_Inv; exact G1|split; [reflexivity|split; [reflexivity|constructor]]].
+  - split; [apply init_Inv; exact G2|split; [reflexivity|split; [reflexivity|constructor]]].
+  - rewrite !rest_init by reflexivity. cbn [cdata mk_plain_client].
+    exists (drop cut data). unfold take, drop. symmetry. apply firstn_skipn.
+Qed.
